@@ -275,7 +275,19 @@ type qlAnswer struct {
 	Tags       []string   `json:"tags"`
 	Nontrivial bool       `json:"nontrivial"`
 	Abandon    bool       `json:"abandon"` // the worker leaves a blocked goroutine behind and exits
+	Blocked    string     `json:"blocked"` // shape of the call that did not return (function + situation)
+	Retry      bool       `json:"retry"`   // timed case: the process was stalled so long that a timer may have fired between two operations
 }
+
+// Once the same call shape has blocked in qlKnownAfter executed cases of a run, later cases do not execute it
+// again (each would cost the full watchdog time plus a worker process): they report the same finding,
+// marked "not re-tried". A replay of such a line starts from zero and executes the call.
+const qlKnownAfter = 3
+
+var (
+	qlBlockedShapes = map[string]int{}
+	qlBlockedMu     sync.Mutex
+)
 
 type qlWorker struct {
 	cmd   *exec.Cmd
@@ -358,22 +370,42 @@ func qlPut(w *qlWorker) {
 var qlHookOnce sync.Once
 
 func execQl(line string) Result {
+	// a timed case whose worker was stalled (machine load) so long that a 1 s timer may have fired in the
+	// middle of the quick operations is run again in a fresh process: the order of events would not be the line's
+	for attempt := 0; ; attempt++ {
+		res, retry := execQlOnce(line)
+		if !retry || attempt >= 3 {
+			return res
+		}
+	}
+}
+
+func execQlOnce(line string) (Result, bool) {
 	f := strings.Fields(line)
 	if len(f) < 2 || (f[0] != "ql" && f[0] != "qlt") {
-		return Result{Out: "bad-op"}
+		return Result{Out: "bad-op"}, false
 	}
 	timed := f[0] == "qlt"
 	w, err := qlGet(timed)
 	if err != nil {
-		return Result{Out: "worker-failed", Fails: []PropFail{{Sig: "query-lifecycle/worker-failed", Msg: err.Error()}}}
+		return Result{Out: "worker-failed", Fails: []PropFail{{Sig: "query-lifecycle/worker-failed", Msg: err.Error()}}}, false
 	}
 	type rd struct {
 		s   string
 		err error
 	}
 	ch := make(chan rd, 1)
+	qlBlockedMu.Lock()
+	var known []string
+	for sh, n := range qlBlockedShapes {
+		if n >= qlKnownAfter {
+			known = append(known, sh)
+		}
+	}
+	qlBlockedMu.Unlock()
+	sort.Strings(known)
 	go func() {
-		if _, err := io.WriteString(w.in, line+"\n"); err != nil {
+		if _, err := io.WriteString(w.in, "!skip "+strings.Join(known, " ")+"\n"+line+"\n"); err != nil {
 			ch <- rd{"", err}
 			return
 		}
@@ -386,20 +418,25 @@ func execQl(line string) Result {
 		if r.err != nil || json.Unmarshal([]byte(r.s), &ans) != nil {
 			w.kill()
 			return Result{Out: "worker-failed", Nontrivial: true, Fails: []PropFail{{Sig: "query-lifecycle/worker-failed",
-				Msg: trunc(fmt.Sprintf("worker died or answered garbage on this line: %v %q", r.err, r.s), 300)}}}
+				Msg: trunc(fmt.Sprintf("worker died or answered garbage on this line: %v %q", r.err, r.s), 300)}}}, false
 		}
 	case <-time.After(qlLineDeadline):
 		w.kill()
 		return Result{Out: "worker-hung", Nontrivial: true, Fails: []PropFail{{Sig: "query-lifecycle/worker-hung",
-			Msg: "the worker process did not answer within 40 s although every call is guarded by a watchdog"}}}
+			Msg: "the worker process did not answer within 40 s although every call is guarded by a watchdog"}}}, false
 	}
 	w.cases++
+	if ans.Abandon && ans.Blocked != "" {
+		qlBlockedMu.Lock()
+		qlBlockedShapes[ans.Blocked]++
+		qlBlockedMu.Unlock()
+	}
 	if ans.Abandon || timed {
 		w.kill()
 	} else {
 		qlPut(w)
 	}
-	return Result{Out: ans.Out, Fails: ans.Fails, Tags: ans.Tags, Nontrivial: ans.Nontrivial}
+	return Result{Out: ans.Out, Fails: ans.Fails, Tags: ans.Tags, Nontrivial: ans.Nontrivial}, ans.Retry
 }
 
 // ---------------------------------------------------------------- worker side
@@ -410,6 +447,13 @@ func c17WorkerMain() {
 	out := bufio.NewWriter(os.Stdout)
 	caseNo := uint64(0)
 	for in.Scan() {
+		if strings.HasPrefix(in.Text(), "!skip") {
+			qlSkipShapes = map[string]bool{}
+			for _, sh := range strings.Fields(in.Text())[1:] {
+				qlSkipShapes[sh] = true
+			}
+			continue
+		}
 		caseNo++
 		ans := qlRunCase(in.Text(), caseNo)
 		b, _ := json.Marshal(ans)
@@ -421,6 +465,8 @@ func c17WorkerMain() {
 		}
 	}
 }
+
+var qlSkipShapes = map[string]bool{} // call shapes known to block in this run (set by the parent)
 
 // qlCall runs one real call under the watchdog; false = it did not return in time.
 func qlCall(d time.Duration, fn func()) (ok bool, panicked interface{}) {
@@ -563,7 +609,7 @@ func qlRunCase(line string, caseNo uint64) (ans qlAnswer) {
 	}
 	hist := map[histKey][]int{}                          // (channel, real qid) → state names read so far; a restart shares the channel
 	chans := map[uint64]chan *query.QueryStateChanData{} // real qid → its latest StateChan
-	admittedAt := map[uint64]time.Time{}  // running, timer not yet seen to have fired
+	admittedAt := map[uint64]time.Time{}                 // running, timer not yet seen to have fired
 	forced := 0
 	interesting := false
 	var toks []string
@@ -575,18 +621,42 @@ func qlRunCase(line string, caseNo uint64) (ans qlAnswer) {
 			hist[histKey{ch, d.Qid}] = append(hist[histKey{ch, d.Qid}], int(d.StateName))
 		}
 	}
-	blockedCall := func(fn string) qlAnswer {
+	blockedCall := func(shape string) qlAnswer {
+		fn := strings.SplitN(shape, "/", 2)[0]
 		ans.Out = "call-blocked"
 		ans.Nontrivial = true
+		ans.Blocked = shape
+		if qlSkipShapes[shape] {
+			ans.Fails = append(ans.Fails, PropFail{Sig: "query-lifecycle/call-blocked/" + fn,
+				Msg: fmt.Sprintf("%s (%s, op %d of the line): not re-tried, the same call did not return within %v in %d earlier cases of this run", fn, shape, len(toks)+1, qlCallDeadline, qlKnownAfter)})
+			return ans
+		}
 		ans.Abandon = true
 		ans.Fails = append(ans.Fails, PropFail{Sig: "query-lifecycle/call-blocked/" + fn,
-			Msg: fmt.Sprintf("%s did not return within %v (op %d of the line); the goroutine is abandoned", fn, qlCallDeadline, len(toks)+1)})
+			Msg: fmt.Sprintf("%s (%s) did not return within %v (op %d of the line); the goroutine is abandoned", fn, shape, qlCallDeadline, len(toks)+1)})
 		probe := base + 9999999
 		if ok, _ := qlCall(qlProbeDeadline, func() { _, _ = query.StartQuery(probe, false, nil, false) }); !ok {
 			ans.Fails = append(ans.Fails, PropFail{Sig: "query-lifecycle/table-lock-held-forever",
 				Msg: fmt.Sprintf("after the blocked %s, StartQuery of a fresh qid does not return within %v: the query tables are locked for every other query", fn, qlProbeDeadline)})
 		}
 		return ans
+	}
+	// guarded runs one real call: under the watchdog, or not at all when its shape is known to block
+	guarded := func(shape string, fn func()) bool {
+		if qlSkipShapes[shape] {
+			return false
+		}
+		okc, p := qlCall(qlCallDeadline, fn)
+		if p != nil {
+			panic(p)
+		}
+		return okc
+	}
+	fw := func(force bool) string {
+		if force {
+			return "force"
+		}
+		return "wait"
 	}
 	wouldBlock := func() qlAnswer {
 		// a send under a table lock would meet a full channel: not executed (the model answers would-block too)
@@ -605,6 +675,14 @@ func qlRunCase(line string, caseNo uint64) (ans qlAnswer) {
 	}
 
 	for _, o := range ops {
+		if timed && o.kind != 'T' {
+			for _, at := range admittedAt {
+				if time.Since(at) > 700*time.Millisecond {
+					// the quick operations since this admission took so long that its timer may fire among them
+					return qlAnswer{Out: "clock-slipped", Retry: true, Tags: []string{"clock-slipped"}}
+				}
+			}
+		}
 		outTok := "noop"
 		infoQ := uint64(0)
 		hasInfo := false
@@ -615,22 +693,18 @@ func qlRunCase(line string, caseNo uint64) (ans qlAnswer) {
 			wasRunning := query.VerifRunningObj(q) != nil
 			var rq *query.RunningQueryState
 			var err error
-			name := "StartQuery"
+			name := "StartQuery/" + fw(o.force)
 			if o.kind == 'S' {
-				name = "StartQueryAsCoordinator"
+				name = "StartQueryAsCoordinator/" + fw(o.force)
 			}
-			okc, p := qlCall(qlCallDeadline, func() {
+			if !guarded(name, func() {
 				if o.kind == 's' {
 					rq, err = query.StartQuery(q, false, nil, o.force)
 				} else {
 					rq, err = query.StartQueryAsCoordinator(q, false, nil, nil, nil, nil, nil, o.force)
 				}
-			})
-			if !okc {
+			}) {
 				return blockedCall(name)
-			}
-			if p != nil {
-				panic(p)
 			}
 			if err != nil {
 				outTok = "rej"
@@ -653,12 +727,8 @@ func qlRunCase(line string, caseNo uint64) (ans qlAnswer) {
 				headQ = wq[:1]
 			}
 			wasRunning := len(headQ) > 0 && query.VerifRunningObj(headQ[0]) != nil
-			okc, p := qlCall(qlCallDeadline, query.VerifPullOnce)
-			if !okc {
+			if !guarded("PullQueriesToRun", query.VerifPullOnce) {
 				return blockedCall("PullQueriesToRun")
-			}
-			if p != nil {
-				panic(p)
 			}
 			if query.VerifWaitingLen() < before {
 				outTok = "ok"
@@ -688,26 +758,29 @@ func qlRunCase(line string, caseNo uint64) (ans qlAnswer) {
 			if obj == nil && wobj != nil {
 				chans[q] = wobj.StateChan
 			}
-			okc, p := qlCall(qlCallDeadline, func() { query.CancelQuery(q) })
-			if !okc {
-				return blockedCall("CancelQuery")
+			shape := "CancelQuery/absent"
+			if obj != nil {
+				shape = "CancelQuery/running"
+			} else if wobj != nil {
+				shape = "CancelQuery/waiting"
 			}
-			if p != nil {
-				panic(p)
+			if !guarded(shape, func() { query.CancelQuery(q) }) {
+				return blockedCall(shape)
 			}
 		case 'd':
 			q := qidOf(o.q)
 			infoQ, hasInfo = q, true
 			interesting = true
-			if query.VerifRunningObj(q) != nil {
+			shape := "DeleteQuery/absent"
+			if obj := query.VerifRunningObj(q); obj != nil {
 				outTok = "ok"
+				shape = "DeleteQuery/running"
+				if obj.VerifIsCancelled() {
+					shape = "DeleteQuery/cancelled"
+				}
 			}
-			okc, p := qlCall(qlCallDeadline, func() { query.DeleteQuery(q) })
-			if !okc {
-				return blockedCall("DeleteQuery")
-			}
-			if p != nil {
-				panic(p)
+			if !guarded(shape, func() { query.DeleteQuery(q) }) {
+				return blockedCall(shape)
 			}
 			delete(admittedAt, q)
 		case 'r':
@@ -723,20 +796,18 @@ func qlRunCase(line string, caseNo uint64) (ans qlAnswer) {
 			if obj := query.VerifRunningObj(q); obj != nil && len(obj.StateChan) < capN {
 				outTok = "ok"
 				name := "SendQueryStateComplete"
-				okc, p := qlCall(qlCallDeadline, func() {
+				if o.kind == 'e' {
+					name = "StateChan<-ERROR"
+				}
+				if !guarded(name, func() {
 					if o.kind == 'k' {
 						obj.SendQueryStateComplete()
 					} else {
-						name = "StateChan<-ERROR"
 						// as ExecuteQueryInternalNewPipeline (segexecution.go) reports a failure
 						obj.StateChan <- &query.QueryStateChanData{StateName: query.ERROR, Qid: q, Error: fmt.Errorf("verif")}
 					}
-				})
-				if !okc {
+				}) {
 					return blockedCall(name)
-				}
-				if p != nil {
-					panic(p)
 				}
 			}
 		case 'R':
@@ -756,12 +827,17 @@ func qlRunCase(line string, caseNo uint64) (ans qlAnswer) {
 			var nrq *query.RunningQueryState
 			var nqid uint64
 			var err error
-			okc, p := qlCall(qlCallDeadline, func() { nrq, nqid, err = obj.RestartQuery(o.force) })
-			if !okc {
-				return blockedCall("RestartQuery")
+			shape := "RestartQuery/live"
+			if cancelled {
+				shape = "RestartQuery/cancelled"
 			}
-			if p != nil {
-				panic(p)
+			if coord {
+				shape += "/coord/" + fw(o.force)
+			} else {
+				shape += "/plain/" + fw(o.force)
+			}
+			if !guarded(shape, func() { nrq, nqid, err = obj.RestartQuery(o.force) }) {
+				return blockedCall(shape)
 			}
 			if !cancelled {
 				delete(admittedAt, q) // the old entry is gone (withLockDeleteQuery stopped its timer)
